@@ -81,12 +81,12 @@ class C20(Prop):
                 exp, w = self.expected_exit(sc, r["health_results"])
                 exited = r["exit_ms"] >= 0
                 if exp is None and exited:
-                    res.append(("unhealthy-exit:unexpected", "the agent terminated after %d checks although no %d consecutive checks failed" % (len(r["health_results"]), max(1, sc["threshold"])), rp))
+                    res.append(("unhealthy-exit:unexpected", "the agent terminated after %d checks although no %d consecutive checks failed" % (len(r["health_results"]), max(1, sc.get("threshold", 0))), rp))
                 if exp is not None:
                     if not exited:
-                        res.append(("unhealthy-exit:missing", "the agent kept running after %d consecutive failed checks (threshold %d)" % (max(1, sc["threshold"]), sc["threshold"]), rp))
+                        res.append(("unhealthy-exit:missing", "the agent kept running after %d consecutive failed checks (threshold %d)" % (max(1, sc.get("threshold", 0)), sc.get("threshold", 0)), rp))
                     elif len(r["health_results"]) != exp or r["exit_code"] == 0 or r["exit_ms"] > r["health_times_ms"][exp - 1] + SLACK:
-                        res.append(("unhealthy-exit:wrong-time", "the agent terminated after %d checks (status %d), the first window of %d consecutive failures ends at check %d" % (len(r["health_results"]), r["exit_code"], max(1, sc["threshold"]), exp), rp))
+                        res.append(("unhealthy-exit:wrong-time", "the agent terminated after %d checks (status %d), the first window of %d consecutive failures ends at check %d" % (len(r["health_results"]), r["exit_code"], max(1, sc.get("threshold", 0)), exp), rp))
             if sc["kind"] == "graceful":
                 g, sig = sc["grace_ms"], r["signal_ms"]
                 if r["exit_ms"] < 0:
@@ -113,7 +113,7 @@ class C20(Prop):
             first_pass = next((i + 1 for i, ok in enumerate(r["health_results"]) if ok), 0)
             polled = 1 if r["list_starts_ms"] else 0
             exit_idx = len(r["health_results"]) if r["exit_ms"] >= 0 else 0
-            items.append("lifecycle_case_ok %d %s %d %d" % (sc["threshold"], checks, polled, exit_idx))
+            items.append("lifecycle_case_ok %d %s %d %d" % (sc.get("threshold", 0), checks, polled, exit_idx))
             rows.append(r)
         body = "\n".join(["From Coq Require Import ZArith List Bool Arith.", "From IP Require Import Agent.Lifecycle Lib.Util.", "Import ListNotations.",
                           "(* observed: did the agent poll at all; after how many checks did it exit (0 = it did not) *)",
